@@ -76,7 +76,18 @@ func scalarBytesCase(r *gen.Rand, i int64) ([]byte, string) {
 func wideBytesCase(r *gen.Rand, i int64) ([]byte, string) {
 	one := big.NewInt(1)
 	b := make([]byte, 64)
-	switch i % 8 {
+	switch i % 9 {
+	case 8: // each 32-byte half is itself a boundary value of the 32-byte classes (l-1, k*l+-small, ...)
+		lo, _ := scalarBytesCase(r, int64(r.Intn(1<<20)))
+		hi, _ := scalarBytesCase(r, int64(r.Intn(1<<20)))
+		if r.Chance(1, 3) {
+			lo = make([]byte, 32)
+		} else if r.Chance(1, 3) {
+			hi = make([]byte, 32)
+		}
+		copy(b[:32], lo)
+		copy(b[32:], hi)
+		return b, "halves-from-32-byte-classes"
 	case 0:
 		for k := range b {
 			b[k] = 0xff
